@@ -136,3 +136,31 @@ def _f21(scenario):
             elif e.tag == 'MANIFEST':
                 manifests.append(os.path.normpath(os.path.join(d, e.path)))
     return any(mp == i or mp.startswith(i + '/') for mp in manifests for i in ignores)
+
+
+MANIFEST_NAMES = ('Manifest', 'Manifest.gz', 'Manifest.bz2', 'Manifest.lzma', 'Manifest.xz')
+
+
+@predicate('f27_manifest_file_covered_by_plain_entry')
+def _f27(scenario):
+    """a file named like a Manifest (and present in the tree) is covered by an IGNORE entry or listed by an entry
+    that is not a MANIFEST entry - in some Manifest of the tree, possibly in that very file"""
+    import io
+    import os
+    import gemato.manifest as gm
+    world = scenario['request']['world']
+    mfiles = set(p for p, nm, c in _walk_nodes(world) if c[0] == 'f' and nm in MANIFEST_NAMES)
+    ignores, plain = [], []
+    for mp, text in _manifest_texts(world):
+        m = gm.ManifestFile()
+        try:
+            m.load(io.StringIO(text), verify_openpgp=False)
+        except Exception:
+            continue
+        d = os.path.dirname(mp)
+        for e in m.entries:
+            if e.tag == 'IGNORE':
+                ignores.append(os.path.normpath(os.path.join(d, e.path)))
+            elif e.tag in ('DATA', 'MISC', 'EBUILD', 'AUX'):
+                plain.append(os.path.normpath(os.path.join(d, e.path)))
+    return any(mp in plain or any(mp == i or mp.startswith(i + '/') for i in ignores) for mp in mfiles if '/' in mp)
